@@ -4,7 +4,7 @@ import Nv.Props.C16
 /-!
 C16 — obligations on the definitions regenerated from /repo's current source (`Nv/Gen/C16.lean`, written by
 `c16 extract`): the shape facts the model is written against, the configuration is a proved one, and the property
-theorems instantiated at exactly that configuration.
+theorems instantiated at exactly that configuration (environment assumption: the exit callback returns).
 -/
 namespace Nv.C16
 open Nv.Gen.C16 in
@@ -15,19 +15,25 @@ theorem tie_cfg_proved : Proved cfg := by decide
 
 open Nv.Gen.C16 in
 theorem tie_single_exit (s : Sess) (hr : (sessLTS cfg).Reach s) : s.exits ≤ 1 ∧ s.decs ≤ 1 ∧ s.closes ≤ 1 :=
-  sess_exit_at_most_once tie_cfg_proved s hr
+  sess_exit_at_most_once tie_cfg_proved (k := .returns) rfl s hr
 
 open Nv.Gen.C16 in
 theorem tie_terminal_state (s : Sess) (hr : (sessLTS cfg).Reach s) (hq : quiescent cfg s) : ended s ∨ waiting s :=
-  sess_terminal_state tie_cfg_proved s hr hq
+  sess_terminal_state tie_cfg_proved (k := .returns) rfl s hr hq
+
+open Nv.Gen.C16 in
+theorem tie_terminating_event_ends (s : Sess) (hr : (sessLTS cfg).Reach s) (e : Env) (he : Terminating s e)
+    (as : List Act) (hi : ∀ a ∈ as, a.internal = true) (t : Sess)
+    (hrun : (sessLTS cfg).run (envStep s e) as = some t) (hq : quiescent cfg t) : ended t :=
+  terminating_event_ends tie_cfg_proved (k := .returns) rfl s hr e he as hi t hrun hq
 
 open Nv.Gen.C16 in
 theorem tie_flush_before_close (s : Sess) (hr : (sessLTS cfg).Reach s) (hf : s.faulted = false) (hcl : s.closes ≠ 0) :
     s.delivered = s.accepted.flatten :=
-  flush_before_close tie_cfg_proved s hr hf hcl
+  flush_before_close tie_cfg_proved (k := .returns) rfl s hr hf (Or.inl hcl)
 
 open Nv.Gen.C16 in
 theorem tie_count (max : Int) (hmax : 0 ≤ max) (w : World) (hr : (worldLTS cfg max).Reach w) :
     w.count ≤ max ∧ w.count = (aliveNum w.sess : Int) :=
-  ⟨count_le_max tie_cfg_proved max hmax w hr, count_balanced tie_cfg_proved max w hr⟩
+  ⟨count_le_max tie_cfg_proved max hmax (k := .returns) rfl w hr, count_balanced tie_cfg_proved max (k := .returns) rfl w hr⟩
 end Nv.C16
